@@ -25,6 +25,7 @@ structure Transc where
   log : Rat → Rat
   sqrt : Rat → Rat
   pow : Rat → Rat → Rat
+  tgamma : Rat → Rat        -- std::tgamma (after `fix:` a972610 `Gamma` no longer exponentiates `GammaLn`)
 
 /-! ## Factorial: the memo machine `FactorialList` -/
 
@@ -110,7 +111,12 @@ def gammaLnGlue (T : Transc) (x s : Rat) : Rat :=
 def gammaLn (T : Transc) (x : Rat) : Except Err Rat :=
   if x ≤ 0 then .error .diag else .ok (gammaLnGlue T x (lanczosSum x))
 
-def gamma (T : Transc) (x : Rat) : Except Err Rat := (gammaLn T x).map T.exp
+/-- `Gamma(x)`: own guard `x <= 0`, then `std::tgamma(x)` (after `fix:` a972610) -/
+def gamma (T : Transc) (x : Rat) : Except Err Rat :=
+  if x ≤ 0 then .error .diag else .ok (T.tgamma x)
+
+/-- the pre-fix form `exp(GammaLn(x))` -/
+def gammaViaLn (T : Transc) (x : Rat) : Except Err Rat := (gammaLn T x).map T.exp
 
 /-! ## GammaPser: the series -/
 
@@ -260,13 +266,23 @@ structure Parts where
   qcf : Rat → Rat → Except Err Rat
   qint : Rat → Rat → Except Err Rat
 
-def gammaQ (E : Parts) (x a : Rat) : Except Err Rat :=
+/-- `std::min(1.0, std::max(0.0, Q))` (after `fix:` 317093f) -/
+def clamp01 (q : Rat) : Rat := rmin 1 (rmax 0 q)
+
+/-- the three branches before the clamp -/
+def gammaQRaw (E : Parts) (x a : Rat) : Except Err Rat :=
   match gammaQBranch x a with
   | .error e => .error e
   | .ok .zero => .ok 1
   | .ok .quad => E.qint x a
   | .ok .series => (E.pser x a).map (fun p => 1 - p)
   | .ok .cf => E.qcf x a
+
+/-- `GammaQ`: `x == 0` returns 1 directly, every other branch is clamped to [0,1] -/
+def gammaQ (E : Parts) (x a : Rat) : Except Err Rat :=
+  match gammaQBranch x a with
+  | .ok .zero => .ok 1
+  | _ => (gammaQRaw E x a).map clamp01
 
 def gammaP (E : Parts) (x a : Rat) : Except Err Rat := (gammaQ E x a).map (fun q => 1 - q)
 
